@@ -720,6 +720,15 @@ func (ex *Exec) concretizeSize(t *Term, elem types.Type, pos token.Pos) int64 {
 	if t.IsConst() {
 		return sext64(t.val, t.w)
 	}
+	// negative sizes panic in make: one fork, no enumeration of the negative range
+	neg := ex.tc.Cmp(OSlt, t, ex.tc.Const(int(t.w), 0))
+	if !neg.IsConst() {
+		if ex.fork(neg) {
+			ex.rtPanic("makeslice: len out of range")
+		}
+	} else if neg.val != 0 {
+		ex.rtPanic("makeslice: len out of range")
+	}
 	ex.checkAlloc(t, elem, pos)
 	return ex.concretize(t, true, "make size")
 }
